@@ -27,20 +27,35 @@ def r17a(ck, prog):
         raise AnalysisBroken("R17a slot: kalign_msa_compare calls compare_pair %d time(s)" % len(calls))
     cp = calls[0]
     sorts = {}
+    via = {}
     for c in K.body.calls():
-        if c.callee and "sort" in c.callee and c.args:
-            a = c.args[0].strip(casts=True)
-            if a.k == "DeclRefExpr" and a.d["did"] in (pr["did"], pt["did"]):
+        if not (c.callee and c.args):
+            continue
+        a = c.args[0].strip(casts=True)
+        if not (a.k == "DeclRefExpr" and a.d["did"] in (pr["did"], pt["did"])):
+            continue
+        if "sort" in c.callee:
+            sorts.setdefault(a.d["did"], []).append(c)
+            via[id(c)] = c.callee
+            continue
+        # a private helper that prepares one alignment: it must sort the msa it is given on every path to its success return
+        H = prog.functions.get(c.callee)
+        if H is not None and H.body is not None and H.static and H.file == K.file and H.params:
+            inner = [x for x in H.body.calls() if x.callee and "sort" in x.callee and x.args and x.args[0].strip(casts=True).k == "DeclRefExpr"
+                     and x.args[0].strip(casts=True).d.get("did") == H.params[0]["did"]]
+            pos = [H.cfg.position(x) for x in inner]
+            if inner and not H.succeeds_avoiding([p_ for p_ in pos if p_ is not None]):
                 sorts.setdefault(a.d["did"], []).append(c)
+                via[id(c)] = inner[0].callee
     for p in (pr, pt):
         where = site(prog, K, "sort %s" % p["name"])
         cs = sorts.get(p["did"], [])
-        ck.inst("R17a", where, "alignment %s is sorted by %s before pairing" % (p["name"], [c.callee for c in cs]), prog.config)
+        ck.inst("R17a", where, "alignment %s is sorted by %s before pairing" % (p["name"], [via[id(c)] + ("" if via[id(c)] == c.callee else " (in %s)" % c.callee) for c in cs]), prog.config)
         if not cs or cfg.reaches(None, cfg.position(cp), avoid=[cfg.position(c) for c in cs]):
             ck.violation("R17a", "R17a/kalign_msa_compare/sort-%s" % ("reference" if p is pr else "test"), where,
                          "rows of %s are paired by position without having been sorted: the score depends on the row order of that file" % p["name"],
                          prog.config)
-    fns = {c.callee for cs in sorts.values() for c in cs}
+    fns = {via[id(c)] for cs in sorts.values() for c in cs}
     if len(fns) > 1:
         ck.violation("R17a", "R17a/kalign_msa_compare/sort-functions", site(prog, K), "the two alignments are sorted by different functions %s" % sorted(fns), prog.config)
     # argument pairing
@@ -377,7 +392,9 @@ def r17g(ck, prog):
     itself - whether the reference is rendered must not depend on the state of the test alignment or vice versa"""
     K = prog.fn("kalign_msa_compare")
     n = 0
-    for c in K.body.calls("finalise_alignment"):
+    fns = [K] + [prog.functions[c.callee] for c in K.body.calls() if c.callee in prog.functions and prog.functions[c.callee].static
+                 and prog.functions[c.callee].file == K.file and prog.functions[c.callee].body is not None]
+    for c in [x for G in fns for x in G.body.calls("finalise_alignment")]:
         a0 = c.args[0].strip(casts=True) if c.args else None
         if a0 is None or a0.k != "DeclRefExpr":
             continue
@@ -396,7 +413,7 @@ def r17g(ck, prog):
                          "whether alignment '%s' is rendered into gapped rows also depends on the state of '%s': comparing an alignment "
                          "made in this process with one read from a file leaves one of them unrendered (alnlen 0) and the score is 0/0" % (
                              a0.d["name"], "/".join(sorted(others))), prog.config)
-    ck.floor("R17g", n, 2, "finalise_alignment calls in kalign_msa_compare")
+    ck.floor("R17g", n, 1, "finalise_alignment calls in kalign_msa_compare and its private helpers")
 
 
 def run(ck, progs):
